@@ -7,7 +7,7 @@ from common import Result
 
 INFO = dict(
     level="proof",
-    rule="random graphs (plus a family with a node 15-18x faster than the supervisor and a family of equal-rate peers) of integer probe nodes (any wrong slot / order / double execution changes every later value; "
+    rule="random graphs (plus a family with a node 15-18x faster than the supervisor and a family of equal-rate peers, and a dyadic family with trainable zero-order-hold delays at their minimum: exact arrival/start ties through apply_delay) of integer probe nodes (any wrong slot / order / double execution changes every later value; "
     "payloads carry a 3-element leaf whose rows must stay together) -> 2 recorded async episodes of different lengths "
     "(simulated clock, all record settings on) -> ExperimentRecord.to_graph() -> Graph(...) for {MCS, GENERATIONAL, TOPOLOGICAL} x {prune, no prune} -> init with the same rng/params/state -> "
     "init_record + rollout; every executed compiled step is compared with the async step of the same node and sequence number (eps, seq, times as float32, rng, state, windows: seq/ts/payload, output). "
@@ -29,7 +29,7 @@ def run(ctx):
     seeds = [ctx.rng.randrange(1 << 30) for _ in range(n)]
     tasks = [dict(fn="tasks_rt:compiled_case", args=dict(seed=s), timeout=900) for s in seeds]
     # families the random generator rarely produces: a node much faster than the supervisor (>= 11 slots of one kind per partition), peers sharing a generation
-    tasks += [dict(fn="tasks_rt:compiled_case", args=dict(seed=ctx.rng.randrange(1 << 30), spec_kind=k), timeout=900) for k in ["high_ratio", "equal_rates"] * ctx.n(1, 3)]
+    tasks += [dict(fn="tasks_rt:compiled_case", args=dict(seed=ctx.rng.randrange(1 << 30), spec_kind=k), timeout=900) for k in ["high_ratio", "equal_rates", "trainable"] * ctx.n(1, 3)]
     good = ac.pool_cases(tasks, res, timeout=900)
     for t, r in good:
         if r.get("skipped"):
